@@ -53,7 +53,7 @@ def _build(cfg):
         bus.memory_map = mm
         if s.get("align_to") is not None:
             dec.align_to(s["align_to"])
-        dec.add(bus, name=(f"w{i}" if s.get("named") else None), addr=s.get("addr"))
+        bus._verif_range = dec.add(bus, name=(f"w{i}" if s.get("named") else None), addr=s.get("addr"))
         subs.append(bus)
         if cfg.get("staged") == i + 1:
             # the decoder is elaborated (e.g. a partial system is simulated) and extended afterwards
@@ -112,8 +112,7 @@ def queries(h, cfg):
     aw, dw = cfg["aw"], cfg["dw"]
 
     def layout(h):
-        wins = {id(w): (start, stop) for w, name, (start, stop, ratio) in h.dec.bus.memory_map.windows()}
-        return [(sub,) + wins[id(sub.memory_map)] for sub in h.subs]
+        return [(sub, sub._verif_range[0], sub._verif_range[1]) for sub in h.subs]      # what add() promised
 
     def routing(h, fr):
         f = fr[0]
@@ -303,13 +302,30 @@ def _flat_replay(v):
     return traces[0] != traces[1]
 
 
+def _windows_agree(cfg):
+    dec, subs = _build(cfg)
+    rep = {id(w): (s_, e_, r_) for w, n_, (s_, e_, r_) in dec.bus.memory_map.windows()}
+    return all(rep.get(id(sub.memory_map)) == tuple(sub._verif_range) for sub in subs) and len(rep) == len(subs)
+
+
 def check(cfg, out, stats):
     if cfg.get("flat"):
         return flat_check(cfg, out, stats)
+    if not _windows_agree(cfg):
+        from ..bmc import mark_violation
+        from ..e1 import cfg_key
+        mark_violation("windows-disagree")
+        out.violations.append({"key": f"windows-disagree@{cfg_key(cfg)}",
+                               "what": f"C06 the decoder's memory map does not report the windows its add() calls returned "
+                                       f"({cfg_key(cfg)})", "query": "windows", "cfg": cfg, "stimulus": [], "prefix": 0,
+                               "k": 0, "detail": {}})
+        return
     run_queries(__import__(__name__, fromlist=["x"]), cfg, out, stats, cosim_cycles=8)
 
 
 def replay(v):
+    if v["query"] == "windows":
+        return not _windows_agree(v["cfg"])
     if v["query"] == "flat-vs-tree":
         return _flat_replay(v)
     return _replay(__import__(__name__, fromlist=["x"]), v)
